@@ -412,6 +412,11 @@ def handlePowd (h : String) : String :=
     | some (d, proof) => s!"ok {d} {hexOrDash proof}"
     | none => "err"
 
+def handleTxenc (t : String) : String :=
+  match parseTx t with
+  | none => "bad-op"
+  | some tx => s!"bytes {hexOrDash (Stdcode.encodeTx tx)}"
+
 def handleTxlen (t : String) : String :=
   match parseTx t with
   | none => "bad-op"
@@ -428,6 +433,7 @@ def handleLine (w : DWorld) (line : String) : DWorld × String :=
   | ["sdoc", h] => (w, handleSdoc h)
   | ["powd", h] => (w, handlePowd h)
   | ["txlen", t] => (w, handleTxlen t)
+  | ["txenc", t] => (w, handleTxenc t)
   | ["env", tx, cid, cdh, idx, hdr] => (w, handleEnv tx cid cdh idx hdr)
   | ["reset"] => ({}, "ok")
   | ["mt", name, entries] => handleMt w name entries
